@@ -156,11 +156,11 @@ class C17Machine(Machine):
                     r[j] = v
         kw = []
         state = {}
-        v, st = opt_num(rng, 0.35, 0.2, ['0.1', '1e-3', '0.01', '1', '0.25', '2.5E-2'])
+        v, st = opt_num(rng, 0.35, 0.2, ['0.1', '1e-3', '0.01', '1', '0.25', '2.5E-2', '0', '0.0'])
         state['$TIMESTEP'] = st
         if v is not None:
             kw.append(['$TIMESTEP', v])
-        v, st = opt_num(rng, 0.6, 0.15, ['100', '200', '1000', '50.5'])
+        v, st = opt_num(rng, 0.6, 0.15, ['100', '200', '1000', '50.5', '0'])
         state['TIMETICKS'] = st
         if v is not None:
             kw.append(['TIMETICKS', v])
@@ -382,6 +382,29 @@ class C17Machine(Machine):
                         len(tidx), 'none' if all(t is None for t in E['time_step']) else 'some',
                         'y' if E['btim'] else 'n', 'y' if E['etim'] else 'n', 'date' if E['date'] else 'nodate')
                     check('acquisition_time', got, at_ok, site, accl)
+                    # history: every attribute read again after the duration was computed, on the same object and on
+                    # views / copies made afterwards, must still say what the keywords say
+                    later = [('reread', d)]
+                    for vn, mk in (('view-after', lambda: d.view()), ('slice-after', lambda: d[:]),
+                                   ('copy-after', lambda: d.copy())):
+                        try:
+                            later.append((vn, mk()))
+                        except Exception as e:
+                            V.append(violation('C17/accessor-raises', '%s/making' % vn, '%s: %s' % (type(e).__name__, e)))
+                    for tag, ob in later:
+                        check('time_step', acc('time_step', lambda: ob.time_step), lambda g: num_ok(g, E['time_step']),
+                              tag + '/' + ts_site, E['time_step'])
+                        check('acquisition_start_time', acc('st', lambda: ob.acquisition_start_time),
+                              lambda g: meta_ref.time_matches(g, E['btim'], E['date']),
+                              '%s/%s/%s' % (tag, st.get('$BTIM', '?'), dsite), (E['btim'], E['date']))
+                        check('acquisition_end_time', acc('et', lambda: ob.acquisition_end_time),
+                              lambda g: meta_ref.time_matches(g, E['etim'], E['date']),
+                              '%s/%s/%s' % (tag, st.get('$ETIM', '?'), dsite), (E['etim'], E['date']))
+                        check('acquisition_time', acc('acquisition_time', lambda: ob.acquisition_time), at_ok,
+                              tag + '/' + site, accl)
+                    bump(out['probes'], 'attributes_reread_after_duration')
+                    if len(tidx) == 1 and any(t == 0.0 for t in E['time_step'] if t is not None):
+                        bump(out['probes'], 'zero_time_step_with_time_channel')
                     # the same rule on channel-sliced views: the view has its own channel list, so the time channel
                     # may have moved or be gone (then start/end apply)
                     D_ = len(spec['names'])
